@@ -44,3 +44,45 @@ package query
 //@   ghost stored int = 0
 //@   at after mapupdate#1: ghost stored = stored + 1
 //@   loop 1 invariant every_pair_is_stored: 0 <= i && stored == i
+
+// ---- C15: iterator options sent to a remote node decode to what was encoded (scalar fields) ----
+// The time range, direction, limits and flags of a remote iterator request travel as optional protobuf fields. Each
+// is carried exactly: in particular a bound of 0 (the epoch) is a bound, not "absent".
+//@ pure pbool(p) = ite(p == nil, false, *p)
+//@ func encodeInterval
+//@   assumed
+//@   modifies nothing
+//@ func decodeInterval
+//@   assumed
+//@   modifies nothing
+//@ func encodeVarRef
+//@   assumed
+//@   modifies nothing
+//@ func decodeVarRef
+//@   assumed
+//@   modifies nothing
+//@ func encodeMeasurement
+//@   assumed
+//@   modifies nothing
+//@ func decodeMeasurement
+//@   assumed
+//@   modifies nothing
+
+//@ func encodeIteratorOptions
+//@   props C15
+//@   nosafety
+//@   dynamic_calls_modify_nothing
+//@   loop 1 invariant scalars_stay: pb != nil && fresh(pb) && pb.StartTime != nil && pb.EndTime != nil && i64(pb.StartTime) == opt.StartTime && i64(pb.EndTime) == opt.EndTime && pbool(pb.Ascending) == opt.Ascending && i64(pb.Limit) == opt.Limit && i64(pb.Offset) == opt.Offset && i64(pb.SLimit) == opt.SLimit && i64(pb.SOffset) == opt.SOffset && i64(pb.MaxSeriesN) == opt.MaxSeriesN && pbool(pb.StripName) == opt.StripName && pbool(pb.Dedupe) == opt.Dedupe && pbool(pb.Ordered) == opt.Ordered
+//@   loop 2 invariant scalars_stay: pb != nil && fresh(pb) && pb.StartTime != nil && pb.EndTime != nil && i64(pb.StartTime) == opt.StartTime && i64(pb.EndTime) == opt.EndTime && pbool(pb.Ascending) == opt.Ascending && i64(pb.Limit) == opt.Limit && i64(pb.Offset) == opt.Offset && i64(pb.SLimit) == opt.SLimit && i64(pb.SOffset) == opt.SOffset && i64(pb.MaxSeriesN) == opt.MaxSeriesN && pbool(pb.StripName) == opt.StripName && pbool(pb.Dedupe) == opt.Dedupe && pbool(pb.Ordered) == opt.Ordered
+//@   loop 3 invariant scalars_stay: pb != nil && fresh(pb) && pb.StartTime != nil && pb.EndTime != nil && i64(pb.StartTime) == opt.StartTime && i64(pb.EndTime) == opt.EndTime && pbool(pb.Ascending) == opt.Ascending && i64(pb.Limit) == opt.Limit && i64(pb.Offset) == opt.Offset && i64(pb.SLimit) == opt.SLimit && i64(pb.SOffset) == opt.SOffset && i64(pb.MaxSeriesN) == opt.MaxSeriesN && pbool(pb.StripName) == opt.StripName && pbool(pb.Dedupe) == opt.Dedupe && pbool(pb.Ordered) == opt.Ordered
+//@   ensures carries_the_time_range: result != nil && i64(result.StartTime) == opt.StartTime && i64(result.EndTime) == opt.EndTime && result.StartTime != nil && result.EndTime != nil
+//@   ensures carries_direction_and_limits: pbool(result.Ascending) == opt.Ascending && i64(result.Limit) == opt.Limit && i64(result.Offset) == opt.Offset && i64(result.SLimit) == opt.SLimit && i64(result.SOffset) == opt.SOffset && i64(result.MaxSeriesN) == opt.MaxSeriesN
+//@   ensures carries_flags: pbool(result.StripName) == opt.StripName && pbool(result.Dedupe) == opt.Dedupe && pbool(result.Ordered) == opt.Ordered
+
+//@ func decodeIteratorOptions
+//@   props C15
+//@   nosafety
+//@   dynamic_calls_modify_nothing
+//@   ensures restores_the_time_range: result1 == nil ==> result0 != nil && result0.StartTime == i64(pb.StartTime) && result0.EndTime == i64(pb.EndTime)
+//@   ensures restores_direction_and_limits: result1 == nil ==> result0.Ascending == pbool(pb.Ascending) && result0.Limit == i64(pb.Limit) && result0.Offset == i64(pb.Offset) && result0.SLimit == i64(pb.SLimit) && result0.SOffset == i64(pb.SOffset) && result0.MaxSeriesN == i64(pb.MaxSeriesN)
+//@   ensures restores_flags: result1 == nil ==> result0.StripName == pbool(pb.StripName) && result0.Dedupe == pbool(pb.Dedupe) && result0.Ordered == pbool(pb.Ordered)
